@@ -175,13 +175,14 @@ impl Compiler {
     /// If compilation fails, everything the failed program left half-finished is discarded,
     /// so the compiler can be used again (eg. for the next line of an interactive session).
     pub fn compile_ast(&mut self, ast: &BlockStmt) -> Result<Bytecode, Error> {
+        let globals_defined = self.symbols.globals_defined();
         match self.compile_program(ast) {
             Ok(code) => Ok(code),
             Err(e) => {
                 self.instructions.clear();
                 self.last_instruction = None;
                 self.loop_contexts.clear();
-                self.symbols.reset_to_global();
+                self.symbols.reset_to_global(globals_defined);
                 Err(e)
             }
         }
